@@ -27,18 +27,21 @@ def poly_funs(rng, n, nfun):
     return fs
 
 
-def make_models(rng, n, npt, m_ub, m_eq):
+def make_models(rng, n, npt, m_ub, m_eq, sigma=1.0):
     from cobyqa.models import Models
     from cobyqa.settings import Options
     from scipy.optimize import NonlinearConstraint
     fs = poly_funs(rng, n, 1 + m_ub + m_eq)
+    if sigma != 1.0:
+        # the same functions on a set shrunk by a power of two (exact in binary64): f_sigma(x) = f(x / sigma)
+        fs = [lambda x, f=f: f(np.asarray(x, float) / sigma) for f in fs]
     cons = []
     if m_ub:
         cons.append(NonlinearConstraint(lambda x: np.array([f(x) for f in fs[1:1 + m_ub]]), -np.inf, 0.0))
     if m_eq:
         cons.append(NonlinearConstraint(lambda x: np.array([f(x) for f in fs[1 + m_ub:]]), 0.0, 0.0))
     pb = impl.make_problem(fs[0], np.zeros(n), nonlinear=cons)
-    options = {Options.RHOBEG.value: 1.0, Options.RHOEND.value: 1e-6, Options.NPT.value: npt, Options.MAX_EVAL.value: 10 ** 6,
+    options = {Options.RHOBEG.value: 1.0 * sigma, Options.RHOEND.value: 1e-6 * sigma, Options.NPT.value: npt, Options.MAX_EVAL.value: 10 ** 6,
                Options.TARGET.value: -np.inf, Options.FEASIBILITY_TOL.value: 1e-8, Options.DEBUG.value: False}
     with warnings.catch_warnings():
         warnings.simplefilter("ignore")
@@ -101,10 +104,10 @@ class ImplCrash(Exception):
     pass
 
 
-def _history(rng, n, npt, m_ub, m_eq, length, max_cond=1e6):
+def _history(rng, n, npt, m_ub, m_eq, length, max_cond=1e6, sigma=1.0):
     """returns dict with the driver request line and, per op, the float side observations; None if the
     geometry degenerated at the start"""
-    models, fs, options, pb = make_models(rng, n, npt, m_ub, m_eq)
+    models, fs, options, pb = make_models(rng, n, npt, m_ub, m_eq, sigma)
     nfun = 1 + m_ub + m_eq
     I = models.interpolation
     base0 = frs(I.x_base)
@@ -117,7 +120,7 @@ def _history(rng, n, npt, m_ub, m_eq, length, max_cond=1e6):
     probe0 = np.array([dy(rng, -1, 1) for _ in range(n)])
     obs = [("I", float_state(models, []), cond_of(models), None)]
     conds = [cond_of(models)]
-    kinds = {"U": 0, "S": 0, "R": 0, "P": 0}
+    kinds = {"U": 0, "S": 0, "R": 0, "P": 0, "T": 0}
     # random operations, then a fixed tail: replacement, reset, probe, shift, probe (so that every history
     # checks a rebuilt model and a shifted model at a probe point)
     draws = [None] * length + [0.0, 0.8, 0.9, 0.7, 0.9]
@@ -128,7 +131,7 @@ def _history(rng, n, npt, m_ub, m_eq, length, max_cond=1e6):
             # replacement: arbitrary index, new point within a few radii, set kept well conditioned
             for _try in range(8):
                 k = int(rng.integers(npt))
-                xnew = np.array([dy(rng, -2, 2) for _ in range(n)]) + (I.x_base if rng.random() < 0.5 else 0.0)
+                xnew = sigma * np.array([dy(rng, -2, 2) for _ in range(n)]) + (I.x_base if rng.random() < 0.5 else 0.0)
                 Xn = xpt_rows(models)
                 Xn[k] = [Fr(float(a)) - Fr(float(b)) for a, b in zip(xnew, I.x_base)]
                 Wn = exact.inverse(exact.kkt(Xn))
@@ -144,6 +147,11 @@ def _history(rng, n, npt, m_ub, m_eq, length, max_cond=1e6):
             else:
                 continue
             vals = [f(xnew) for f in fs]
+            if rng.random() < 0.2:
+                # exact tie: the value observed at the new point is EXACTLY what the current models predict there
+                # (zero interpolation error); the minimum-norm update must still move the replaced point's share
+                vals = [float(models.fun(xnew))] + [float(v) for v in models.cub(xnew)] + [float(v) for v in models.ceq(xnew)]
+                kinds["T"] = kinds.get("T", 0) + 1
             with warnings.catch_warnings():
                 warnings.simplefilter("ignore")
                 try:
@@ -187,7 +195,7 @@ def _history(rng, n, npt, m_ub, m_eq, length, max_cond=1e6):
             obs.append(("R", float_state(models, []), cond_of(models), None))
             kinds["R"] += 1
         else:
-            x = I.x_base + np.array([dy(rng, -1, 1) for _ in range(n)])
+            x = I.x_base + sigma * np.array([dy(rng, -1, 1) for _ in range(n)])
             parts += ["P", exact.rl(frs(x))]
             obs.append(("P", float_state(models, [x]), cond_of(models), {"x": x.tolist()}))
             kinds["P"] += 1
@@ -195,10 +203,11 @@ def _history(rng, n, npt, m_ub, m_eq, length, max_cond=1e6):
             "max_cond": max(conds), "kinds": kinds, "models": models}
 
 
-def history(rng, n, npt, m_ub, m_eq, length, max_cond=1e6):
-    """as _history; an exception raised by the implementation on a valid operation is returned as {"crash": text}"""
+def history(rng, n, npt, m_ub, m_eq, length, max_cond=1e6, sigma=1.0):
+    """as _history; an exception raised by the implementation on a valid operation is returned as {"crash": text}.
+    sigma (a power of two): the whole geometry is shrunk by that factor, the functions are f(x / sigma)"""
     try:
-        return _history(rng, n, npt, m_ub, m_eq, length, max_cond)
+        return _history(rng, n, npt, m_ub, m_eq, length, max_cond, sigma)
     except ImplCrash as exc:
         return {"crash": str(exc)}
 
